@@ -107,6 +107,43 @@ def check_laws(res, L, rng, tag, reps, default_order):
                             [(c * A.value).tolist(), tgt], dict(site, op='normal'))
 
 
+def check_complex(res, L, rng, tag, reps):
+    """complex coefficients: the grade laws and mag2 = <~M M>_0 are algebraic (no conjugation of coefficients)"""
+    import numpy as np
+    from clifford import MultiVector
+    n, N = L.dims, L.gaDims
+    gr = np.array(common.grades_of(L))
+    site = common.site_of(L)
+    sig = [int(x) for x in L.sig]
+    i2b = L._basis_blade_order.index_to_bitmap.tolist()
+    for _ in range(reps):
+        a = np.array(gen.int_mv(rng, N)) + 1j * np.array(gen.int_mv(rng, N))
+        b = np.array(gen.int_mv(rng, N)) + 1j * np.array(gen.int_mv(rng, N))
+        A, B = MultiVector(L, a), MultiVector(L, b)
+        inp = dict(site, A=[str(x) for x in a.tolist()], B=[str(x) for x in b.tolist()])
+        res.case(('complex', tag, str(a.tolist()), str(b.tolist())), nontrivial=bool(np.any(a.imag)))
+        res.count('complex')
+        exp_rev = np.array([rev_sign(int(g)) for g in gr]) * a
+        if not np.array_equal((~A).value, exp_rev) or not np.array_equal(A.gradeInvol().value, np.array([(-1) ** int(g) for g in gr]) * a):
+            res.violate('~M / gradeInvol on complex coefficients do not follow the grade laws', inp, (~A).value.tolist(), exp_rev.tolist(), dict(site, op='rev-complex'))
+        if not np.array_equal((~(A * B)).value, ((~B) * (~A)).value):
+            res.violate('~(AB) != ~B ~A (complex)', inp, None, None, dict(site, op='rev-anti-complex'))
+        if common.is_shortlex(L):
+            exp = 0
+            for idx, bm in enumerate(i2b):
+                p = 1
+                for i in range(n):
+                    if (bm >> i) & 1:
+                        p *= sig[i]
+                exp += complex(a[idx]) ** 2 * p
+            m2 = complex(A.mag2())
+            sc = complex(((~A) * A).value[0])
+            if m2 != exp or sc != exp:
+                res.violate('mag2 is not the scalar part of ~M*M (complex coefficients)', inp, str(m2), str(exp), dict(site, op='mag2-complex'))
+            if float(abs(A)) != float(np.sqrt(abs(exp))):
+                res.violate('abs(M) is not sqrt(|mag2|) (complex coefficients)', inp, float(abs(A)), float(np.sqrt(abs(exp))), dict(site, op='abs-complex'))
+
+
 def correspondence(res, layouts, rng, reps, label, dtypes=('int',)):
     import numpy as np
     ob = common.OpBatch()
@@ -143,6 +180,8 @@ def run_job(job, tier, seed):
         layouts = common.build_layouts(res, cases)
         for tag, L in layouts:
             check_laws(res, L, rng, tag, reps=3 if L.gaDims <= 64 else 1, default_order=common.is_shortlex(L))
+            if L.gaDims <= 64:
+                check_complex(res, L, rng, tag, 2)
         correspondence(res, [(t, L) for t, L in layouts if L.gaDims <= 128], rng, 2 if tier == 'quick' else 6, 'nojit')
         for name in ('g3c', 'pga', 'sta:D'):
             L = real.predefined(name)
@@ -157,6 +196,7 @@ def run_job(job, tier, seed):
         layouts = common.build_layouts(res, cases, prefix='J')
         for tag, L in layouts:
             check_laws(res, L, rng, tag, reps=4, default_order=common.is_shortlex(L))
+            check_complex(res, L, rng, tag, 2)
         correspondence(res, layouts, rng, 6 if tier == 'quick' else 20, 'jit', dtypes=('int', 'float'))
     else:
         raise ValueError(job)
